@@ -1,6 +1,7 @@
 package main
 
 import (
+	"bytes"
 	"crypto/sha256"
 	"encoding/hex"
 	"encoding/json"
@@ -16,6 +17,7 @@ import (
 	"time"
 
 	"reduction.dev/reduction/dkv"
+	"reduction.dev/reduction/dkv/kv"
 	"reduction.dev/reduction/dkv/recovery"
 	"reduction.dev/reduction/dkv/sst"
 	"reduction.dev/reduction/dkv/storage"
@@ -458,13 +460,54 @@ func (r *c08Run) retainedDone(id uint64) bool {
 	return ok && slices.Contains(r.lineage, id) && !(r.held != nil && r.held.isCd && r.held.id == id)
 }
 
+// c08Val prints a value: short ones in hex, long ones (the >= 64 KB values that make WAL segments large) as
+// length and a checksum, the same way the driver does.
+func c08Val(v []byte) string {
+	if len(v) <= 64 {
+		return lib.Hex(v)
+	}
+	var sum uint64
+	for _, b := range v {
+		sum = (sum*131 + uint64(b)) % 4294967291
+	}
+	return fmt.Sprintf("L%dx%d", len(v), sum)
+}
+
+func c08ShowEntry(e kv.Entry, err error) string {
+	if err == kv.ErrNotFound {
+		return "absent"
+	}
+	if err != nil {
+		return "err " + c08Short(err.Error())
+	}
+	if e.IsDelete() {
+		return "absent"
+	}
+	return "val " + c08Val(e.Value())
+}
+
+func c08ShowScan(db *dkv.DB, prefix []byte) string {
+	var scanErr error
+	var parts []string
+	for e := range db.ScanPrefix(prefix, &scanErr) {
+		parts = append(parts, lib.Hex(e.Key())+":"+c08Val(e.Value()))
+	}
+	if scanErr != nil {
+		return "err " + c08Short(scanErr.Error())
+	}
+	if len(parts) == 0 {
+		return "empty"
+	}
+	return strings.Join(parts, ",")
+}
+
 func c08Scan(db *dkv.DB) (out string) {
 	defer func() {
 		if p := recover(); p != nil {
 			out = "panic " + c08Short(fmt.Sprint(p))
 		}
 	}()
-	return showScanEntries(db, nil)
+	return c08ShowScan(db, nil)
 }
 
 // c08Leaked keeps abandoned-without-cleanup instances reachable (their table cleanups must not run either).
@@ -535,9 +578,9 @@ func runC08Trace(c lib.Case) []string {
 				emit("rot=0")
 			}
 		case "get":
-			emit(showEntry(db.Get(lib.UnHex(f[1]))))
+			emit(c08ShowEntry(db.Get(lib.UnHex(f[1]))))
 		case "scan":
-			emit(showScanEntries(db, lib.UnHex(f[1])))
+			emit(c08ShowScan(db, lib.UnHex(f[1])))
 		case "bg":
 			emit(r.bg(f[1]))
 		case "ckpt":
@@ -957,6 +1000,7 @@ type c08Gen struct {
 	next    uint64
 	lineage []uint64
 	phase   map[uint64]int // 0 captured, 1 WAL saved, 2 done
+	big     bool           // some values are 60-72 KB
 }
 
 func (g *c08Gen) add(op string) { g.ops = append(g.ops, op) }
@@ -1011,7 +1055,12 @@ func (g *c08Gen) write() {
 	if g.r.Chance(1, 5) {
 		g.add("del " + lib.Hex(c07Key(g.r)))
 	} else {
-		g.add(fmt.Sprintf("put %s %s", lib.Hex(c07Key(g.r)), lib.Hex(c07Val(g.r))))
+		v := c07Val(g.r)
+		if g.big && g.r.Chance(1, 4) {
+			// one record of 64 KB or more: the WAL segment it lands in is large enough for buffer reuse schemes to matter
+			v = bytes.Repeat([]byte{byte(g.r.Intn(256))}, g.r.Range(60000, 72000))
+		}
+		g.add(fmt.Sprintf("put %s %s", lib.Hex(c07Key(g.r)), lib.Hex(v)))
 	}
 }
 
@@ -1105,8 +1154,8 @@ func (g *c08Gen) overlap() {
 	g.add(fmt.Sprintf("peek %d", probe))
 }
 
-func genC08Ops(r *lib.Rng, n int) []string {
-	g := &c08Gen{r: r, next: 1, phase: map[uint64]int{}}
+func genC08Ops(r *lib.Rng, n int, big bool) []string {
+	g := &c08Gen{r: r, next: 1, phase: map[uint64]int{}, big: big}
 	for len(g.ops) < n {
 		switch x := r.Intn(100); {
 		case x < 38:
@@ -1187,6 +1236,8 @@ func genC08Ops(r *lib.Rng, n int) []string {
 	return g.ops
 }
 
+func c08Big(b byte, n int) string { return lib.Hex(bytes.Repeat([]byte{b}, n)) }
+
 func c08Fixed() []lib.Case {
 	k, k2, k3, z := "6b", "6b32", "6b33", "7a7a"
 	big := lib.Hex([]byte(strings.Repeat("x", 300)))
@@ -1202,6 +1253,18 @@ func c08Fixed() []lib.Case {
 		{Header: "M C08 mem=200 l0=2 amp=1 smallest=1", Ops: []string{"put " + k + " 01", "put 00 " + big, "bg f", "bg f", "bg c", "bg c",
 			"put 00 " + big + "79", "bg f", "bg f", "bg c", "bg c", "bg c", "bg c", "ckpt 1", "cw 1", "cd 1", "reopen 1 same",
 			"put 00 04", "get 00", "scan 00", "scan -", "put " + z + " " + big, "bg f", "bg f", "bg c", "bg c", "bg c", "get 00", "scan -"}, Tags: []string{"regress-D6"}},
+		// the WAL save of a checkpoint runs late: after a flush of pre-checkpoint memtables committed (their WAL segments are
+		// truncated), the memtable rotated again and more writes arrived, with segments of 64 KB and more. The saved file
+		// must still hold the log as it was at the Checkpoint call.
+		{Header: hdr, Ops: []string{"put " + k + " 01", "put " + k2 + " " + c08Big(0x41, 70000), "ckpt 1", "bg f", "bg f",
+			"put " + k3 + " " + c08Big(0x42, 70000), "put " + z + " " + c08Big(0x43, 60000), "put " + k + " 02", "cw 1", "cd 1", "peek 1",
+			"bg f", "bg f", "put " + k2 + " " + c08Big(0x44, 66000), "ckpt 2", "put " + z + " " + c08Big(0x45, 61000), "bg f", "bg f", "bg f", "bg f",
+			"put " + k3 + " " + c08Big(0x46, 65000), "put " + k + " " + c08Big(0x47, 59000), "cw 2", "cd 2", "peek 1", "peek 2", "reopen 2 same", "scan -", "intact"},
+			Tags: []string{"late-wal-save-large-segments"}},
+		// retention keeps the listed checkpoints and every newer one; the dropped one is gone, the kept ones restore
+		{Header: hdr, Ops: []string{"put " + k + " 01", "ckpt 1", "cw 1", "cd 1", "put " + k2 + " 02", "ckpt 2", "cw 2", "cd 2", "put " + k3 + " 03",
+			"ckpt 3", "cw 3", "cd 3", "put " + k + " 04", "ckpt 4", "retain 2", "peek 1", "peek 2", "peek 3", "cw 4", "cd 4", "peek 4", "retain 4,2",
+			"peek 2", "peek 3", "peek 4", "reopen 2 same", "scan -", "intact"}, Tags: []string{"retain-keeps-newer"}},
 		// overlapping saves: the document write of checkpoint 1 is held while checkpoint 2 is taken and completed
 		// (blocked behind the list mutex in the code as it is, then repeated); both must restore afterwards
 		{Header: hdr, Ops: []string{"put " + k + " 01", "ckpt 1", "cw 1", "hcd 1", "put " + k2 + " 02", "ckpt 2", "cw 2", "cd 2", "release",
@@ -1252,7 +1315,11 @@ func propC08() *lib.Prop {
 				fmt.Sscanf(h[strings.Index(h, "mem=")+4:], "%d", &mem)
 				h += fmt.Sprintf(" wal=%d", mem+lib.Pick(r, []int{0, 20, 60}))
 			}
-			return lib.Case{Header: h, Ops: genC08Ops(r, n)}
+			big := r.Chance(1, 25)
+			if big {
+				n = r.Range(25, 60)
+			}
+			return lib.Case{Header: h, Ops: genC08Ops(r, n, big)}
 		},
 		Impl:       runC08Trace,
 		Nontrivial: c08Nontrivial,
